@@ -20,7 +20,26 @@
 //!      while the read lock is held.
 //!
 //! Oracle: a logical forest (Arc-shared immutable nodes) + a map in commit-return order.
-//! Stepping API for 0..2 (`with_background_thread = false`). No model op lines (comments only).
+//!
+//! MODEL CORRESPONDENCE (kinds 0, 1, 2, 4; stepping API, `with_background_thread = false`): every
+//! action is emitted as an op line of the driver command `c11` (lean/Pdb/Model/C11Driver.lean:
+//! `tstep Variant.current`, the model of the code as shipped) together with the state observed on
+//! the real crate after it: `Db::get` of every ordinary key written so far, the tree keys with a
+//! readable root, `get_num_column_value_entries`, and the full walk of every tree whose read lock
+//! is held, through the held guard.  The F4 / F13 scenarios are included: there the model predicts
+//! the (wrong) behaviour of the shipped code.  Each case ends with `c11 verdict`, answered by THIS
+//! file's independent oracle (order / forest / stable = ok | violated): the known findings are
+//! exactly the cases where the shipped-code model leaves the property's reference semantics.
+//!
+//! KNOWN-FINDING lines are emitted only when the finding's own sequence is SHOWN:
+//!   F4   (kv)      every wrong read returns T1's value (the re-published one), nothing else;
+//!   F4'  (insert)  the only damage to B are missing nodes that B shares with A, freed by the
+//!                  overtaking dereference of A; B's root and B's own nodes are intact;
+//!   F13  (gap)     the reader's lock was taken after the dereferencing commit passed its
+//!                  deferral check / was planned and before its record was published (yield
+//!                  points `process_commits.before_deferral_check`, `.before_end_record`,
+//!                  `.after_end_record`, stamped with one global counter).
+//! Everything else is an ORACLE failure.
 use crate::util::*;
 use parity_db::{ColumnOptions, Db, NewNode, NodeRef, Operation, Options, TreeReader};
 use std::collections::{BTreeMap, HashMap, HashSet};
@@ -191,31 +210,6 @@ fn key_of(id: u64) -> Vec<u8> {
 	k
 }
 
-struct Stepper<'a> {
-	db: &'a Db,
-	dirty: u32,
-}
-
-impl<'a> Stepper<'a> {
-	fn process(&mut self, n: usize) {
-		for _ in 0..n {
-			self.db.process_commits().unwrap();
-		}
-	}
-	fn settle(&mut self) {
-		self.db.flush_logs().unwrap();
-		self.db.enact_logs().unwrap();
-		self.db.clean_logs().unwrap();
-		self.dirty = 0;
-	}
-	fn drain(&mut self, n: usize) {
-		for _ in 0..n {
-			self.db.process_commits().unwrap();
-			self.settle();
-		}
-	}
-}
-
 fn insert_tree(db: &Db, key: &[u8], tree: &L, known: &HashMap<usize, u64>) -> Result<(), parity_db::Error> {
 	db.commit_changes(vec![(TREE_COL, Operation::InsertTree(key.to_vec(), to_new(tree, known)))])
 }
@@ -237,100 +231,549 @@ fn kv_get(db: &Db, k: &[u8]) -> Option<Vec<u8>> {
 }
 
 // ------------------------------------------------------------------------------------------
+// yield hook of this module: counts the deferral decisions of `process_commits`, stamps the
+// planning / publication of records with one global counter, can park the log worker at one point
+
+#[derive(Default)]
+struct ParkState {
+	parked: bool,
+	release: bool,
+	armed: bool,
+}
+
+/// (deferral check, planned, published, publication of the previous record) stamps of the record
+/// that removed a tree's root
+type Window = (u64, u64, u64, u64);
+
+struct Hook11 {
+	clock: AtomicU64,
+	checks: AtomicU64,
+	deferred: AtomicU64,
+	planned: AtomicU64,
+	published: AtomicU64,
+	last_check: AtomicU64,
+	last_plan: AtomicU64,
+	last_pub: AtomicU64,
+	park_point: &'static str,
+	park: Mutex<ParkState>,
+	cv: std::sync::Condvar,
+	/// called on the log worker's thread right after a record was published: (check, plan, now)
+	on_published: Mutex<Option<Box<dyn Fn(Window) + Send + Sync>>>,
+}
+
+thread_local! {
+	static PARK_ME11: std::cell::Cell<bool> = const { std::cell::Cell::new(false) };
+}
+
+impl Hook11 {
+	fn new(park_point: &'static str) -> Arc<Hook11> {
+		Arc::new(Hook11 {
+			clock: AtomicU64::new(1),
+			checks: AtomicU64::new(0),
+			deferred: AtomicU64::new(0),
+			planned: AtomicU64::new(0),
+			published: AtomicU64::new(0),
+			last_check: AtomicU64::new(0),
+			last_plan: AtomicU64::new(0),
+			last_pub: AtomicU64::new(0),
+			park_point,
+			park: Mutex::new(ParkState::default()),
+			cv: std::sync::Condvar::new(),
+			on_published: Mutex::new(None),
+		})
+	}
+	fn tick(&self) -> u64 {
+		self.clock.fetch_add(1, Ordering::SeqCst)
+	}
+	fn install(self: &Arc<Hook11>) {
+		let h = self.clone();
+		parity_db::verif::set_yield_hook(Some(Arc::new(move |name: &'static str| {
+			match name {
+				"process_commits.before_deferral_check" => {
+					h.checks.fetch_add(1, Ordering::SeqCst);
+					h.last_check.store(h.tick(), Ordering::SeqCst);
+				},
+				"process_commits.deferred" => {
+					h.deferred.fetch_add(1, Ordering::SeqCst);
+				},
+				"process_commits.before_end_record" => {
+					h.planned.fetch_add(1, Ordering::SeqCst);
+					h.last_plan.store(h.tick(), Ordering::SeqCst);
+				},
+				"process_commits.after_end_record" => {
+					h.published.fetch_add(1, Ordering::SeqCst);
+					let now = h.tick();
+					let w = (
+						h.last_check.load(Ordering::SeqCst),
+						h.last_plan.load(Ordering::SeqCst),
+						now,
+						h.last_pub.load(Ordering::SeqCst),
+					);
+					if let Some(f) = &*h.on_published.lock().unwrap() {
+						f(w);
+					}
+					h.last_pub.store(now, Ordering::SeqCst);
+				},
+				_ => {},
+			}
+			if name == h.park_point && PARK_ME11.with(|p| p.get()) {
+				let mut st = h.park.lock().unwrap();
+				if !st.armed {
+					return
+				}
+				st.armed = false;
+				st.parked = true;
+				h.cv.notify_all();
+				while !st.release {
+					st = h.cv.wait(st).unwrap();
+				}
+				st.parked = false;
+				st.release = false;
+				h.cv.notify_all();
+			}
+		})));
+	}
+	fn uninstall() {
+		parity_db::verif::set_yield_hook(None);
+	}
+	fn arm(&self) {
+		let mut st = self.park.lock().unwrap();
+		st.armed = true;
+		st.release = false;
+	}
+	fn wait_parked(&self, ms: u64) -> bool {
+		let st = self.park.lock().unwrap();
+		let (st, _) = self.cv.wait_timeout_while(st, Duration::from_millis(ms), |s| !s.parked).unwrap();
+		st.parked
+	}
+	fn release(&self) {
+		let mut st = self.park.lock().unwrap();
+		st.release = true;
+		st.armed = false;
+		self.cv.notify_all();
+	}
+}
+
+/// 0 = not probed, 1 = yield points of fixes/f-c11/hook-c11.diff absent, 2 = present
+static DEFER_HOOK: std::sync::atomic::AtomicU8 = std::sync::atomic::AtomicU8::new(0);
+
+/// Does this build of the crate have `process_commits.before_deferral_check` / `.deferred`?
+fn defer_hook_present(root: &Path) -> bool {
+	match DEFER_HOOK.load(Ordering::SeqCst) {
+		1 => return false,
+		2 => return true,
+		_ => {},
+	}
+	let dir = fresh_dir(root, "c11-probe");
+	let db = Db::open_or_create(&options(&dir, false)).expect("create");
+	let h = Hook11::new("");
+	h.install();
+	let leaf = Arc::new(LNode { data: vec![1u8; 8], children: vec![] });
+	insert_tree(&db, &key_of(1), &leaf, &HashMap::new()).unwrap();
+	db.process_commits().unwrap();
+	db.commit_changes(vec![(TREE_COL, Operation::DereferenceTree(key_of(1)))]).unwrap();
+	db.process_commits().unwrap();
+	Hook11::uninstall();
+	let present = h.checks.load(Ordering::SeqCst) > 0;
+	db.flush_logs().unwrap();
+	db.enact_logs().unwrap();
+	db.clean_logs().unwrap();
+	drop(db);
+	let _ = std::fs::remove_dir_all(&dir);
+	DEFER_HOOK.store(if present { 2 } else { 1 }, Ordering::SeqCst);
+	present
+}
+
+// ------------------------------------------------------------------------------------------
+// model recorder: performs an action on the real Db, observes, emits the `c11` op line
+
+/// depth bound of the model's walks and of its dereference walk (trees here are at most 5 deep)
+const MODEL_FUEL: u64 = 8;
+/// model id of the ordinary key b"counter"
+const K: u64 = 7;
+
+fn kv_key(id: u64) -> Vec<u8> {
+	if id == K {
+		b"counter".to_vec()
+	} else {
+		format!("key-{}", id).into_bytes()
+	}
+}
+
+fn fmt_children(ch: &[u64]) -> String {
+	if ch.is_empty() {
+		"-".into()
+	} else {
+		ch.iter().map(|a| a.to_string()).collect::<Vec<_>>().join("+")
+	}
+}
+
+fn walk_text_node(rd: &dyn TreeReader, a: u64, fuel: u64, parts: &mut Vec<String>) {
+	if fuel == 0 {
+		parts.push(format!("{}=!", a));
+		return
+	}
+	match rd.get_node(a) {
+		Ok(Some((_, ch))) => {
+			parts.push(format!("{}={}", a, fmt_children(&ch)));
+			for c in ch.iter() {
+				walk_text_node(rd, *c, fuel - 1, parts);
+			}
+		},
+		Ok(None) => parts.push(format!("{}=?", a)),
+		Err(e) => parts.push(format!("{}=err:{:?}", a, e).replace(' ', "_")),
+	}
+}
+
+/// the walk of a locked tree through its guard, in the model's text form
+fn walk_text(rd: &dyn TreeReader) -> String {
+	match rd.get_root() {
+		Ok(Some((_, ch))) => {
+			let mut parts = vec![format!("root={}", fmt_children(&ch))];
+			for a in ch.iter() {
+				walk_text_node(rd, *a, MODEL_FUEL, &mut parts);
+			}
+			parts.join(";")
+		},
+		Ok(None) => "gone".into(),
+		Err(e) => format!("err:{:?}", e).replace(' ', "_"),
+	}
+}
+
+type Held<'h> = [(u64, &'h dyn TreeReader)];
+
+struct Rec<'a> {
+	db: &'a Db,
+	vlen: usize,
+	kv: Vec<u64>,
+	trees: Vec<u64>,
+	/// independent oracle: ordinary keys in commit-return order
+	want: BTreeMap<u64, u64>,
+	/// reads that did not return the last committed value: (key, got, want, after op)
+	stale: Vec<(u64, Option<u64>, u64, String)>,
+	hook: Option<Arc<Hook11>>,
+	panicked: bool,
+}
+
+impl<'a> Rec<'a> {
+	fn new(db: &'a Db, vlen: usize, hook: Option<Arc<Hook11>>, t: &mut Trace) -> Rec<'a> {
+		// PDB_C11_VARIANT=patched: the crate under test was built with fixes/fix-c11-defer-order.diff
+		// and is compared with the model's `Variant.patched`
+		let patched = std::env::var("PDB_C11_VARIANT").map(|v| v == "patched").unwrap_or(false);
+		t.op(&format!("c11 init {}{}", MODEL_FUEL, if patched { " patched" } else { "" }), "ok");
+		Rec { db, vlen, kv: vec![], trees: vec![], want: BTreeMap::new(), stale: vec![], hook, panicked: false }
+	}
+	fn val(&self, n: u64) -> Vec<u8> {
+		let mut v = n.to_le_bytes().to_vec();
+		v.resize(self.vlen.max(8), n as u8);
+		v
+	}
+	fn observe(&mut self, held: &Held, after: &str) -> String {
+		let mut kvs = vec![];
+		for id in self.kv.clone() {
+			let got = match self.db.get(KV_COL, &kv_key(id)) {
+				Ok(Some(v)) if v.len() >= 8 => {
+					let n = u64::from_le_bytes(v[0..8].try_into().unwrap());
+					if v == self.val(n) {
+						kvs.push(format!("{}={}", id, n));
+						Some(n)
+					} else {
+						kvs.push(format!("{}=?", id));
+						Some(u64::MAX)
+					}
+				},
+				Ok(Some(_)) => {
+					kvs.push(format!("{}=?", id));
+					Some(u64::MAX)
+				},
+				Ok(None) => {
+					kvs.push(format!("{}=-", id));
+					None
+				},
+				Err(e) => {
+					kvs.push(format!("{}=err:{:?}", id, e).replace(' ', "_"));
+					Some(u64::MAX)
+				},
+			};
+			let want = self.want.get(&id).copied();
+			if got != want {
+				self.stale.push((id, got, want.unwrap_or(0), after.to_string()));
+			}
+		}
+		let mut roots = vec![];
+		for id in self.trees.iter() {
+			match self.db.get_root(TREE_COL, &key_of(*id)) {
+				Ok(Some(_)) => roots.push(id.to_string()),
+				Ok(None) => {},
+				Err(e) => roots.push(format!("{}:err:{:?}", id, e).replace(' ', "_")),
+			}
+		}
+		let n = match self.db.get_num_column_value_entries(TREE_COL) {
+			Ok(n) => n.to_string(),
+			Err(e) => format!("err:{:?}", e).replace(' ', "_"),
+		};
+		// the model lists locked trees in the order their inserts were committed
+		let mut hs = vec![];
+		for id in self.trees.iter() {
+			if let Some((_, rd)) = held.iter().find(|(h, _)| h == id) {
+				hs.push(format!("{}:{}", id, walk_text(*rd)));
+			}
+		}
+		format!("kv[{}] roots[{}] n={} held[{}]", kvs.join(","), roots.join(","), n, hs.join(" "))
+	}
+	fn emit(&mut self, t: &mut Trace, op: &str, status: &str, held: &Held) {
+		let o = self.observe(held, op);
+		t.op(&format!("c11 {}", op), &format!("{} {}", status, o));
+	}
+	/// Learn the addresses the crate claimed for the new nodes of `tree` (readable through the
+	/// commit overlay as soon as `commit` returned).
+	fn learn(&self, id: u64, tree: &L, known: &HashMap<usize, u64>, learned: &mut HashMap<usize, u64>) -> String {
+		fn node(db: &Db, n: &L, a: u64, known: &HashMap<usize, u64>, learned: &mut HashMap<usize, u64>, out: &mut Vec<String>) {
+			if known.contains_key(&ptr(n)) {
+				return
+			}
+			learned.insert(ptr(n), a);
+			match db.get_node(TREE_COL, a) {
+				Ok(Some((_, ch))) => {
+					out.push(format!("{}:{}", a, fmt_children(&ch)));
+					for (c, ca) in n.children.iter().zip(ch.iter()) {
+						node(db, c, *ca, known, learned, out);
+					}
+				},
+				_ => out.push(format!("{}:unreadable", a)),
+			}
+		}
+		match self.db.get_root(TREE_COL, &key_of(id)) {
+			Ok(Some((_, ch))) => {
+				let mut out = vec![];
+				for (c, ca) in tree.children.iter().zip(ch.iter()) {
+					node(self.db, c, *ca, known, learned, &mut out);
+				}
+				format!("{}/{}/{}", id, fmt_children(&ch), if out.is_empty() { "-".to_string() } else { out.join(",") })
+			},
+			_ => format!("{}/unreadable/-", id),
+		}
+	}
+	/// One transaction: inserts, dereferences (tree column), sets (ordinary column).
+	fn commit(
+		&mut self,
+		t: &mut Trace,
+		sets: &[(u64, u64)],
+		derefs: &[u64],
+		inserts: &[(u64, &L, &HashMap<usize, u64>)],
+		held: &Held,
+		learned: &mut HashMap<usize, u64>,
+	) -> Result<(), parity_db::Error> {
+		let mut tx = vec![];
+		for (id, tree, known) in inserts.iter() {
+			tx.push((TREE_COL, Operation::InsertTree(key_of(*id), to_new(tree, known))));
+		}
+		for id in derefs.iter() {
+			tx.push((TREE_COL, Operation::DereferenceTree(key_of(*id))));
+		}
+		for (k, v) in sets.iter() {
+			tx.push((KV_COL, Operation::Set(kv_key(*k), self.val(*v))));
+		}
+		let r = self.db.commit_changes(tx);
+		let mut ins_txt = vec![];
+		if r.is_ok() {
+			for (k, v) in sets.iter() {
+				if !self.kv.contains(k) {
+					self.kv.push(*k);
+				}
+				self.want.insert(*k, *v);
+			}
+			for (id, tree, known) in inserts.iter() {
+				self.trees.push(*id);
+				ins_txt.push(self.learn(*id, tree, known, learned));
+			}
+		}
+		let dash = |v: Vec<String>, sep: &str| if v.is_empty() { "-".to_string() } else { v.join(sep) };
+		let op = format!(
+			"commit {} {} {}",
+			dash(sets.iter().map(|(k, v)| format!("{}={}", k, v)).collect(), ","),
+			dash(derefs.iter().map(|d| d.to_string()).collect(), ","),
+			dash(ins_txt, "|")
+		);
+		self.emit(t, &op, if r.is_ok() { "ok" } else { "rejected" }, held);
+		r
+	}
+	fn lock(&mut self, t: &mut Trace, id: u64, held: &Held) {
+		self.emit(t, &format!("lock {}", id), "ok", held);
+	}
+	fn unlock(&mut self, t: &mut Trace, id: u64, held: &Held) {
+		self.emit(t, &format!("unlock {}", id), "ok", held);
+	}
+	/// one whole `process_commits` call
+	fn pp(&mut self, t: &mut Trace, held: &Held) {
+		let db = self.db;
+		if std::panic::catch_unwind(std::panic::AssertUnwindSafe(|| db.process_commits().unwrap())).is_err() {
+			self.panicked = true;
+			t.op("c11 pp", "panic");
+			return
+		}
+		self.emit(t, "pp", "ok", held);
+		if let Some(h) = &self.hook {
+			t.op("c11 ndefer", &h.deferred.load(Ordering::SeqCst).to_string());
+		}
+	}
+	fn settle(&mut self, t: &mut Trace, held: &Held) {
+		if self.panicked {
+			return
+		}
+		self.db.flush_logs().unwrap();
+		self.db.enact_logs().unwrap();
+		self.db.clean_logs().unwrap();
+		self.emit(t, "settle", "ok", held);
+	}
+	fn drain(&mut self, t: &mut Trace, n: usize, held: &Held) {
+		for _ in 0..n {
+			if self.panicked {
+				return
+			}
+			self.pp(t, held);
+			self.settle(t, held);
+		}
+	}
+	/// the verdict of this file's oracle, in the form of the model's `c11 verdict`
+	fn verdict(&mut self, t: &mut Trace, forest_ok: bool, stable_ok: bool) {
+		let w = |b: bool| if b { "ok" } else { "violated" };
+		t.op(
+			"c11 verdict",
+			&format!("order={} forest={} stable={}", w(self.stale.is_empty()), w(forest_ok), w(stable_ok)),
+		);
+	}
+	/// F4 is shown iff every wrong read returned `t1` (the value of the re-queued transaction,
+	/// which the history overwrote later) and the first wrong read came after a `process_commits`.
+	fn order_report(&self, t1: u64) -> Result<Option<String>, String> {
+		if self.stale.is_empty() {
+			return Ok(None)
+		}
+		let show = |x: &(u64, Option<u64>, u64, String)| {
+			format!("after `{}` get(key {}) = {:?}, commit-return order says {}", x.3.split(' ').next().unwrap_or(""), x.0, x.1, x.2)
+		};
+		for x in self.stale.iter() {
+			if x.1 != Some(t1) || x.2 <= t1 || x.3.starts_with("commit") || x.3.starts_with("lock") {
+				return Err(format!("wrong read that is NOT the F4 pattern (value of the re-queued transaction {}): {}", t1, show(x)))
+			}
+		}
+		Ok(Some(format!("{}; {} wrong reads in all, last: {}", show(&self.stale[0]), self.stale.len(), show(self.stale.last().unwrap()))))
+	}
+}
+
+fn hook_for_case(root: &Path, park_point: &'static str) -> Option<Arc<Hook11>> {
+	let present = defer_hook_present(root);
+	let h = Hook11::new(park_point);
+	h.install();
+	if present || !park_point.is_empty() {
+		Some(h)
+	} else {
+		Hook11::uninstall();
+		None
+	}
+}
+
+/// `Some(hook)` only when the deferral yield points exist (then `c11 ndefer` lines are emitted)
+fn counting(root: &Path, h: &Option<Arc<Hook11>>) -> Option<Arc<Hook11>> {
+	if defer_hook_present(root) {
+		h.clone()
+	} else {
+		None
+	}
+}
+
+// ------------------------------------------------------------------------------------------
 // 0: F4
 
 fn f4(seed: u64, root: &Path, t: &mut Trace, ctr: &mut Counters, prop: &str) -> bool {
+	if (seed / 5) % 2 == 1 {
+		return requeue_livelock(seed, root, t, ctr, prop)
+	}
 	let mut rng = Rng::new(seed);
 	let later = rng.range(1, 3); // transactions committed after T1 writing the same key
 	let vlen = *rng.pick(&[1usize, 30, 400]);
 	t.begin_case(&format!("seed={} f4 later={} vlen={}", seed, later, vlen));
 	let dir = fresh_dir(root, &format!("c11-f4-{}", seed));
+	let hook = hook_for_case(root, "");
 	let db = Db::open_or_create(&options(&dir, false)).expect("create");
-	let mut st = Stepper { db: &db, dirty: 0 };
+	let mut rec = Rec::new(&db, vlen, counting(root, &hook), t);
 	let mut tag = 0;
 	let a = gen_tree(&mut rng, 2, &mut tag);
+	let none = HashMap::new();
+	let mut addrs_a = HashMap::new();
+	rec.commit(t, &[], &[], &[(1, &a, &none)], &[], &mut addrs_a).unwrap();
+	rec.drain(t, 2, &[]);
 	let ka = key_of(1);
-	insert_tree(&db, &ka, &a, &HashMap::new()).unwrap();
-	st.drain(2);
-	let k = b"counter".to_vec();
-	let val = |n: u64| {
-		let mut v = n.to_le_bytes().to_vec();
-		v.resize(vlen.max(8), n as u8);
-		v
-	};
 	let mut ok = true;
-	let mut violated = vec![];
+	let mut stable_ok = true;
 	let reader = db.get_tree(TREE_COL, &ka).unwrap().expect("tree A exists");
 	let guard = reader.read();
-	// T1, then the later transactions; `want` is the commit-return-order value
-	db.commit_changes(vec![
-		(TREE_COL, Operation::DereferenceTree(ka.clone())),
-		(KV_COL, Operation::Set(k.clone(), val(1))),
-	])
-	.unwrap();
-	let mut want = 1u64;
-	for i in 0..later {
-		want = 2 + i;
-		db.commit_changes(vec![(KV_COL, Operation::Set(k.clone(), val(want)))]).unwrap();
-	}
-	if kv_get(&db, &k) != Some(val(want)) {
-		t.oracle_fail(prop, "f4: read right after the commits does not return the last committed value");
-		ok = false;
-	}
-	// T1 reaches the head of the queue while the lock is held
-	st.process(1);
-	let got = kv_get(&db, &k);
-	if got != Some(val(want)) {
-		violated.push(format!(
-			"after process_commits with the lock on A held, get(k) = {:?}, commit-return order says {}",
-			got.as_ref().map(|v| u64::from_le_bytes(v[0..8].try_into().unwrap())),
-			want
-		));
-	}
-	// the tree itself is untouched while locked
-	let mut addrs = HashMap::new();
-	let mut n = 0;
-	match walk(&**guard, &a, &mut addrs, &mut n) {
-		Ok(true) => {},
-		Ok(false) => {
-			t.oracle_fail(prop, "f4: locked tree A lost its root");
-			ok = false;
-		},
-		Err(m) => {
-			t.oracle_fail(prop, &format!("f4: locked tree A changed: {}", m));
-			ok = false;
-		},
+	{
+		let held: &Held = &[(1, &**guard)];
+		rec.lock(t, 1, held);
+		// T1, then the later transactions
+		rec.commit(t, &[(K, 1)], &[1], &[], held, &mut HashMap::new()).unwrap();
+		for i in 0..later {
+			rec.commit(t, &[(K, 2 + i)], &[], &[], held, &mut HashMap::new()).unwrap();
+		}
+		// T1 reaches the head of the queue while the lock is held
+		rec.pp(t, held);
+		// the tree itself is untouched while locked
+		let mut addrs = HashMap::new();
+		let mut n = 0;
+		match walk(&**guard, &a, &mut addrs, &mut n) {
+			Ok(true) if addrs == addrs_a => {},
+			Ok(true) => {
+				t.oracle_fail(prop, "f4: node addresses of locked tree A changed");
+				ok = false;
+				stable_ok = false;
+			},
+			Ok(false) => {
+				t.oracle_fail(prop, "f4: locked tree A lost its root");
+				ok = false;
+				stable_ok = false;
+			},
+			Err(m) => {
+				t.oracle_fail(prop, &format!("f4: locked tree A changed: {}", m));
+				ok = false;
+				stable_ok = false;
+			},
+		}
 	}
 	drop(guard);
 	drop(reader);
-	st.drain(later as usize + 3);
-	let fin = kv_get(&db, &k);
-	if fin != Some(val(want)) {
-		violated.push(format!(
-			"final state: get(k) = {:?}, commit-return order says {}",
-			fin.as_ref().map(|v| u64::from_le_bytes(v[0..8].try_into().unwrap())),
-			want
-		));
-	}
+	rec.unlock(t, 1, &[]);
+	rec.drain(t, later as usize + 3, &[]);
 	// the postponed removal completed
+	let mut forest_ok = true;
 	match verify_tree(&db, &ka, &a, &mut HashMap::new()) {
 		Ok(false) => {},
 		other => {
 			t.oracle_fail(prop, &format!("f4: tree A still present after unlock + drain: {:?}", other));
 			ok = false;
+			forest_ok = false;
 		},
 	}
 	let entries = db.get_num_column_value_entries(TREE_COL).unwrap();
 	if entries != 0 {
 		t.oracle_fail(prop, &format!("f4: {} value entries left after the only tree was dereferenced", entries));
 		ok = false;
+		forest_ok = false;
 	}
-	if violated.is_empty() {
-		ctr.inc("f4.order_kept");
-	} else {
-		ctr.inc("f4.order_violated");
-		t.known(prop, "F4", &format!("deferred commit overtaken and re-published: {}", violated.join("; ")));
+	rec.verdict(t, forest_ok, stable_ok);
+	match rec.order_report(1) {
+		Ok(None) => ctr.inc("f4.order_kept"),
+		Ok(Some(m)) => {
+			ctr.inc("f4.order_violated");
+			t.known(prop, "F4", &format!("deferred commit overtaken and re-published (every wrong read returns T1's value): {}", m));
+		},
+		Err(m) => {
+			t.oracle_fail(prop, &format!("f4: {}", m));
+			ok = false;
+		},
 	}
+	Hook11::uninstall();
+	drop(rec);
 	drop(db);
 	let _ = std::fs::remove_dir_all(&dir);
 	ctr.inc("cases.f4");
@@ -339,7 +782,103 @@ fn f4(seed: u64, root: &Path, t: &mut Trace, ctr: &mut Counters, prop: &str) -> 
 }
 
 // ------------------------------------------------------------------------------------------
+// 0 (second variant): three transactions that each dereference a tree listed in `used_trees` of
+// another queued transaction.  All reader locks are released, yet `process_commits` re-queues the
+// head commit whole on every call (the model's `current_livelock_forever`): none of the removals
+// ever completes, none of the inserted trees is ever published.
+
+fn requeue_livelock(seed: u64, root: &Path, t: &mut Trace, ctr: &mut Counters, prop: &str) -> bool {
+	let mut rng = Rng::new(seed ^ 0x11fe);
+	let rounds = rng.range(9, 20) as usize;
+	let keep_handles = rng.chance(1, 2);
+	t.begin_case(&format!("seed={} requeue-livelock rounds={} keep_handles={}", seed, rounds, keep_handles));
+	let dir = fresh_dir(root, &format!("c11-ll3-{}", seed));
+	let hook = hook_for_case(root, "");
+	let db = Db::open_or_create(&options(&dir, false)).expect("create");
+	let mut rec = Rec::new(&db, 8, counting(root, &hook), t);
+	let mut tag = 0;
+	let mut ok = true;
+	let none = HashMap::new();
+	let t1 = gen_tree(&mut rng, 1, &mut tag);
+	let t2 = gen_tree(&mut rng, 1, &mut tag);
+	let t5 = gen_tree(&mut rng, 1, &mut tag);
+	let t6 = gen_tree(&mut rng, 1, &mut tag);
+	rec.commit(t, &[], &[], &[(1, &t1, &none)], &[], &mut HashMap::new()).unwrap();
+	rec.commit(t, &[], &[], &[(2, &t2, &none)], &[], &mut HashMap::new()).unwrap();
+	rec.drain(t, 3, &[]);
+	let r1 = db.get_tree(TREE_COL, &key_of(1)).unwrap().expect("tree 1 exists");
+	let r2 = db.get_tree(TREE_COL, &key_of(2)).unwrap().expect("tree 2 exists");
+	let g1 = r1.read();
+	let g2 = r2.read();
+	{
+		rec.lock(t, 1, &[(1, &**g1)]);
+		let held: &Held = &[(1, &**g1), (2, &**g2)];
+		rec.lock(t, 2, held);
+		// c0 = {Deref 2}; c = {Insert 5, Deref 1}: used_trees = {2}; c' = {Insert 6, Deref 2}:
+		// used_trees = {2, 1}
+		rec.commit(t, &[], &[2], &[], held, &mut HashMap::new()).unwrap();
+		rec.commit(t, &[], &[1], &[(5, &t5, &none)], held, &mut HashMap::new()).unwrap();
+		rec.commit(t, &[], &[2], &[(6, &t6, &none)], held, &mut HashMap::new()).unwrap();
+	}
+	drop(g1);
+	rec.unlock(t, 1, &[(2, &**g2)]);
+	drop(g2);
+	rec.unlock(t, 2, &[]);
+	let handles = if keep_handles { Some((r1, r2)) } else { drop(r1); drop(r2); None };
+	// no lock is held any more, nothing else is committed: the log worker runs
+	let published0 = hook.as_ref().map(|h| h.published.load(Ordering::SeqCst));
+	rec.drain(t, rounds, &[]);
+	let published1 = hook.as_ref().map(|h| h.published.load(Ordering::SeqCst));
+	let stuck = matches!(db.get_root(TREE_COL, &key_of(1)), Ok(Some(_))) && matches!(db.get_root(TREE_COL, &key_of(2)), Ok(Some(_)));
+	let entries = db.get_num_column_value_entries(TREE_COL).unwrap();
+	let want = expected_entries(&[&t5, &t6]);
+	rec.verdict(t, !stuck && entries == want, true);
+	if !stuck && entries == want {
+		ctr.inc("livelock.completed");
+	} else if stuck && published0 == published1 {
+		ctr.inc("livelock.stuck");
+		t.known(prop, "F4c", &format!(
+			"REQUEUE-LIVELOCK: no reader lock held, {} process_commits calls, 0 records published: {{Deref 2}}, {{Insert 5, Deref 1}} (used_trees {{2}}), {{Insert 6, Deref 2}} (used_trees {{2, 1}}) re-queue each other for ever; trees 1 and 2 still present, {} value entries instead of {}",
+			rounds, entries, want));
+	} else {
+		t.oracle_fail(prop, &format!("requeue-livelock: postponed removals incomplete after {} process_commits calls without any lock (stuck={} entries={} want={} published {:?} -> {:?})", rounds, stuck, entries, want, published0, published1));
+		ok = false;
+	}
+	if !rec.stale.is_empty() {
+		t.oracle_fail(prop, "requeue-livelock: ordinary reads changed");
+		ok = false;
+	}
+	drop(handles);
+	Hook11::uninstall();
+	drop(rec);
+	// the three commits stay queued and `drop` would try to drain them for ever: store an error
+	// first (the drain is skipped then)
+	if stuck {
+		db.verif_store_err(Err(parity_db::Error::Io(std::io::Error::new(std::io::ErrorKind::Other, "abandoned by harness"))));
+	}
+	let dropper = std::thread::spawn(move || drop(db));
+	let t0 = Instant::now();
+	while !dropper.is_finished() && t0.elapsed() < Duration::from_secs(20) {
+		std::thread::sleep(Duration::from_millis(5));
+	}
+	if !dropper.is_finished() {
+		t.comment("requeue-livelock: drop(Db) did not return within 20 s");
+		ctr.inc("livelock.drop_hang");
+	}
+	let _ = std::fs::remove_dir_all(&dir);
+	ctr.inc("cases.requeue_livelock");
+	t.end_case(true);
+	ok
+}
+
+// ------------------------------------------------------------------------------------------
 // 1: locked-tree stability
+
+fn shared_count(b: &L, addrs: &HashMap<usize, u64>) -> u64 {
+	let mut hs = HashSet::new();
+	distinct_nodes(b, &mut hs);
+	hs.into_iter().filter(|p| addrs.contains_key(p)).count() as u64
+}
 
 /// Variant: the removal of A is already queued when the reader locks A; B (sharing A's nodes) is
 /// inserted under the lock; the lock AND the reader handle are released before the log worker
@@ -350,35 +889,46 @@ fn late_lock(seed: u64, root: &Path, t: &mut Trace, ctr: &mut Counters, prop: &s
 	let keep_handle = rng.chance(1, 3);
 	t.begin_case(&format!("seed={} stability late-lock depth={} keep_handle={}", seed, depth, keep_handle));
 	let dir = fresh_dir(root, &format!("c11-ll-{}", seed));
+	let hook = hook_for_case(root, "");
 	let db = Db::open_or_create(&options(&dir, false)).expect("create");
-	let mut st = Stepper { db: &db, dirty: 0 };
+	let mut rec = Rec::new(&db, 8, counting(root, &hook), t);
 	let mut tag = 0;
 	let mut ok = true;
+	let mut forest_ok = true;
+	let mut stable_ok = true;
 	let a = gen_tree(&mut rng, depth, &mut tag);
-	let ka = key_of(1);
-	insert_tree(&db, &ka, &a, &HashMap::new()).unwrap();
-	st.drain(2);
+	let (ka, kb) = (key_of(1), key_of(2));
+	let none = HashMap::new();
+	let mut addrs_a = HashMap::new();
+	rec.commit(t, &[], &[], &[(1, &a, &none)], &[], &mut addrs_a).unwrap();
+	rec.drain(t, 2, &[]);
 	// removal of A queued, nothing processed yet
-	db.commit_changes(vec![(TREE_COL, Operation::DereferenceTree(ka.clone()))]).unwrap();
+	rec.commit(t, &[], &[1], &[], &[], &mut HashMap::new()).unwrap();
 	let reader = db.get_tree(TREE_COL, &ka).unwrap().expect("tree A exists");
 	let guard = reader.read();
-	let mut addrs = HashMap::new();
-	let mut n_a = 0;
-	if !matches!(walk(&**guard, &a, &mut addrs, &mut n_a), Ok(true)) {
-		t.oracle_fail(prop, "late-lock: tree A does not read back under the lock");
-		ok = false;
-	}
 	let b = gen_derived(&mut rng, &a, &mut tag);
-	let kb = key_of(2);
-	insert_tree(&db, &kb, &b, &addrs).unwrap();
+	{
+		let held: &Held = &[(1, &**guard)];
+		rec.lock(t, 1, held);
+		let mut addrs = HashMap::new();
+		let mut n_a = 0;
+		if !matches!(walk(&**guard, &a, &mut addrs, &mut n_a), Ok(true)) || addrs != addrs_a {
+			t.oracle_fail(prop, "late-lock: tree A does not read back under the lock");
+			ok = false;
+			stable_ok = false;
+		}
+		rec.commit(t, &[], &[], &[(2, &b, &addrs)], held, &mut HashMap::new()).unwrap();
+	}
 	drop(guard);
 	let kept = if keep_handle { Some(reader) } else { drop(reader); None };
-	st.drain(8);
+	rec.unlock(t, 1, &[]);
+	rec.drain(t, 8, &[]);
 	match verify_tree(&db, &ka, &a, &mut HashMap::new()) {
 		Ok(false) => ctr.inc("latelock.removal_completed"),
 		other => {
 			t.oracle_fail(prop, &format!("late-lock: postponed removal of A did not complete after unlock: {:?}", other));
 			ok = false;
+			forest_ok = false;
 		},
 	}
 	match verify_tree(&db, &kb, &b, &mut HashMap::new()) {
@@ -386,6 +936,7 @@ fn late_lock(seed: u64, root: &Path, t: &mut Trace, ctr: &mut Counters, prop: &s
 		other => {
 			t.oracle_fail(prop, &format!("late-lock: tree B (inserted under the lock, sharing nodes of A) not intact after the removal of A: {:?}", other));
 			ok = false;
+			forest_ok = false;
 		},
 	}
 	let entries = db.get_num_column_value_entries(TREE_COL).unwrap();
@@ -393,19 +944,26 @@ fn late_lock(seed: u64, root: &Path, t: &mut Trace, ctr: &mut Counters, prop: &s
 	if entries != want {
 		t.oracle_fail(prop, &format!("late-lock: {} value entries, expected {}", entries, want));
 		ok = false;
+		forest_ok = false;
 	}
+	rec.verdict(t, forest_ok, stable_ok);
 	drop(kept);
-	db.commit_changes(vec![(TREE_COL, Operation::DereferenceTree(kb.clone()))]).unwrap();
-	st.drain(3);
+	rec.commit(t, &[], &[2], &[], &[], &mut HashMap::new()).unwrap();
+	rec.drain(t, 3, &[]);
 	let entries = db.get_num_column_value_entries(TREE_COL).unwrap();
 	if entries != 0 {
 		t.oracle_fail(prop, &format!("late-lock: {} value entries left after every tree was dereferenced", entries));
 		ok = false;
+		forest_ok = false;
 	}
+	rec.verdict(t, forest_ok, stable_ok);
+	Hook11::uninstall();
+	let shared = shared_count(&b, &addrs_a);
+	drop(rec);
 	drop(db);
 	let _ = std::fs::remove_dir_all(&dir);
 	ctr.inc("cases.stability_late_lock");
-	t.end_case(true);
+	t.end_case(shared > 0);
 	ok
 }
 
@@ -419,14 +977,19 @@ fn stability(seed: u64, root: &Path, t: &mut Trace, ctr: &mut Counters, prop: &s
 	let extra_trees = rng.below(3);
 	t.begin_case(&format!("seed={} stability deref_first={} depth={} extra={}", seed, deref_first, depth, extra_trees));
 	let dir = fresh_dir(root, &format!("c11-st-{}", seed));
+	let hook = hook_for_case(root, "");
 	let db = Db::open_or_create(&options(&dir, false)).expect("create");
-	let mut st = Stepper { db: &db, dirty: 0 };
+	let mut rec = Rec::new(&db, 8, counting(root, &hook), t);
 	let mut tag = 0;
 	let mut ok = true;
+	let mut forest_ok = true;
+	let mut stable_ok = true;
 	let a = gen_tree(&mut rng, depth, &mut tag);
-	let ka = key_of(1);
-	insert_tree(&db, &ka, &a, &HashMap::new()).unwrap();
-	st.drain(2);
+	let (ka, kb) = (key_of(1), key_of(2));
+	let none = HashMap::new();
+	let mut addrs_a = HashMap::new();
+	rec.commit(t, &[], &[], &[(1, &a, &none)], &[], &mut addrs_a).unwrap();
+	rec.drain(t, 2, &[]);
 	// earlier reader handles of the same tree, taken and dropped again (the registry then holds a
 	// dead weak reference for the key when the real reader is created)
 	let prior = rng.below(3);
@@ -434,103 +997,108 @@ fn stability(seed: u64, root: &Path, t: &mut Trace, ctr: &mut Counters, prop: &s
 		let r = db.get_tree(TREE_COL, &ka).unwrap().expect("tree A exists");
 		if rng.chance(1, 2) {
 			let g = r.read();
-			let _ = g.get_root();
+			rec.lock(t, 1, &[(1, &**g)]);
+			drop(g);
+			rec.unlock(t, 1, &[]);
 		}
 		drop(r);
 	}
 	ctr.inc(&format!("stability.prior_handles.{}", prior));
 	let reader = db.get_tree(TREE_COL, &ka).unwrap().expect("tree A exists");
 	let guard = reader.read();
-	let mut addrs = HashMap::new();
-	let mut n_a = 0;
-	if !matches!(walk(&**guard, &a, &mut addrs, &mut n_a), Ok(true)) {
-		t.oracle_fail(prop, "stability: tree A does not read back after insertion");
-		ok = false;
-	}
-	ctr.add("stability.nodes_in_A", n_a);
 	let b = gen_derived(&mut rng, &a, &mut tag);
-	let kb = key_of(2);
-	let mut shared = 0;
+	let shared = shared_count(&b, &addrs_a);
+	let mut others: Vec<(u64, L)> = vec![];
+	let mut addrs_b = HashMap::new();
 	{
-		let mut hs = HashSet::new();
-		distinct_nodes(&b, &mut hs);
-		for p in hs {
-			if addrs.contains_key(&p) {
-				shared += 1;
+		let held: &Held = &[(1, &**guard)];
+		rec.lock(t, 1, held);
+		let mut addrs = HashMap::new();
+		let mut n_a = 0;
+		if !matches!(walk(&**guard, &a, &mut addrs, &mut n_a), Ok(true)) || addrs != addrs_a {
+			t.oracle_fail(prop, "stability: tree A does not read back after insertion");
+			ok = false;
+			stable_ok = false;
+		}
+		ctr.add("stability.nodes_in_A", n_a);
+		ctr.add("stability.shared_nodes", shared);
+		if deref_first {
+			rec.commit(t, &[], &[1], &[], held, &mut HashMap::new()).unwrap();
+			rec.commit(t, &[], &[], &[(2, &b, &addrs)], held, &mut addrs_b).unwrap();
+		} else {
+			rec.commit(t, &[], &[], &[(2, &b, &addrs)], held, &mut addrs_b).unwrap();
+			rec.commit(t, &[], &[1], &[], held, &mut HashMap::new()).unwrap();
+		}
+		// unrelated trees come and go meanwhile
+		for i in 0..extra_trees {
+			let o = gen_tree(&mut rng, 2, &mut tag);
+			rec.commit(t, &[], &[], &[(10 + i, &o, &none)], held, &mut HashMap::new()).unwrap();
+			others.push((10 + i, o));
+		}
+		// the pipeline runs while the lock is held
+		for round in 0..4 {
+			rec.drain(t, 2, held);
+			let mut seen = HashMap::new();
+			let mut n = 0;
+			match walk(&**guard, &a, &mut seen, &mut n) {
+				Ok(true) if seen == addrs => ctr.inc("stability.locked_walks_ok"),
+				Ok(true) => {
+					t.oracle_fail(prop, &format!("stability: node addresses of locked tree A changed in round {}", round));
+					ok = false;
+					stable_ok = false;
+				},
+				Ok(false) => {
+					t.oracle_fail(prop, &format!("stability: root of locked tree A disappeared in round {}", round));
+					ok = false;
+					stable_ok = false;
+				},
+				Err(m) => {
+					t.oracle_fail(prop, &format!("stability: locked tree A changed in round {}: {}", round, m));
+					ok = false;
+					stable_ok = false;
+				},
 			}
 		}
 	}
-	ctr.add("stability.shared_nodes", shared);
-	if deref_first {
-		db.commit_changes(vec![(TREE_COL, Operation::DereferenceTree(ka.clone()))]).unwrap();
-		insert_tree(&db, &kb, &b, &addrs).unwrap();
-	} else {
-		insert_tree(&db, &kb, &b, &addrs).unwrap();
-		db.commit_changes(vec![(TREE_COL, Operation::DereferenceTree(ka.clone()))]).unwrap();
-	}
-	// unrelated trees come and go meanwhile
-	let mut others = vec![];
-	for i in 0..extra_trees {
-		let o = gen_tree(&mut rng, 2, &mut tag);
-		let ko = key_of(10 + i);
-		insert_tree(&db, &ko, &o, &HashMap::new()).unwrap();
-		others.push((ko, o));
-	}
-	// the pipeline runs while the lock is held
-	for round in 0..4 {
-		st.drain(2);
-		let mut seen = HashMap::new();
-		let mut n = 0;
-		match walk(&**guard, &a, &mut seen, &mut n) {
-			Ok(true) if seen == addrs => ctr.inc("stability.locked_walks_ok"),
-			Ok(true) => {
-				t.oracle_fail(prop, &format!("stability: node addresses of locked tree A changed in round {}", round));
-				ok = false;
-			},
-			Ok(false) => {
-				t.oracle_fail(prop, &format!("stability: root of locked tree A disappeared in round {}", round));
-				ok = false;
-			},
-			Err(m) => {
-				t.oracle_fail(prop, &format!("stability: locked tree A changed in round {}: {}", round, m));
-				ok = false;
-			},
-		}
-	}
 	// B was inserted meanwhile and is complete
-	let mut addrs_b = HashMap::new();
-	match verify_tree(&db, &kb, &b, &mut addrs_b) {
+	let mut addrs_b1 = HashMap::new();
+	match verify_tree(&db, &kb, &b, &mut addrs_b1) {
 		Ok(true) => {},
 		other => {
 			t.oracle_fail(prop, &format!("stability: tree B (sharing nodes of locked A) not intact while A is locked: {:?}", other));
 			ok = false;
+			forest_ok = false;
 		},
 	}
 	drop(guard);
 	drop(reader);
-	st.drain(6);
+	rec.unlock(t, 1, &[]);
+	rec.drain(t, 6, &[]);
 	match verify_tree(&db, &ka, &a, &mut HashMap::new()) {
 		Ok(false) => ctr.inc("stability.removal_completed"),
 		other => {
 			t.oracle_fail(prop, &format!("stability: postponed removal of A did not complete after unlock: {:?}", other));
 			ok = false;
+			forest_ok = false;
 		},
 	}
 	let mut addrs_b2 = HashMap::new();
 	match verify_tree(&db, &kb, &b, &mut addrs_b2) {
-		Ok(true) if addrs_b2 == addrs_b => {},
+		Ok(true) if addrs_b2 == addrs_b1 => {},
 		other => {
 			t.oracle_fail(prop, &format!("stability: tree B not intact after A was removed: {:?}", other.map(|_| "addresses changed")));
 			ok = false;
+			forest_ok = false;
 		},
 	}
 	let mut live: Vec<&L> = vec![&b];
-	for (ko, o) in others.iter() {
-		match verify_tree(&db, ko, o, &mut HashMap::new()) {
+	for (io, o) in others.iter() {
+		match verify_tree(&db, &key_of(*io), o, &mut HashMap::new()) {
 			Ok(true) => {},
 			other => {
 				t.oracle_fail(prop, &format!("stability: unrelated tree damaged: {:?}", other));
 				ok = false;
+				forest_ok = false;
 			},
 		}
 		live.push(o);
@@ -540,18 +1108,24 @@ fn stability(seed: u64, root: &Path, t: &mut Trace, ctr: &mut Counters, prop: &s
 	if entries != want {
 		t.oracle_fail(prop, &format!("stability: {} value entries, expected {} (live roots + distinct live nodes)", entries, want));
 		ok = false;
+		forest_ok = false;
 	}
+	rec.verdict(t, forest_ok, stable_ok);
 	// dereference the rest: nothing may remain
-	db.commit_changes(vec![(TREE_COL, Operation::DereferenceTree(kb.clone()))]).unwrap();
-	for (ko, _) in others.iter() {
-		db.commit_changes(vec![(TREE_COL, Operation::DereferenceTree(ko.clone()))]).unwrap();
+	rec.commit(t, &[], &[2], &[], &[], &mut HashMap::new()).unwrap();
+	for (io, _) in others.iter() {
+		rec.commit(t, &[], &[*io], &[], &[], &mut HashMap::new()).unwrap();
 	}
-	st.drain(extra_trees as usize + 3);
+	rec.drain(t, extra_trees as usize + 3, &[]);
 	let entries = db.get_num_column_value_entries(TREE_COL).unwrap();
 	if entries != 0 {
 		t.oracle_fail(prop, &format!("stability: {} value entries left after every tree was dereferenced", entries));
 		ok = false;
+		forest_ok = false;
 	}
+	rec.verdict(t, forest_ok, stable_ok);
+	Hook11::uninstall();
+	drop(rec);
 	drop(db);
 	let _ = std::fs::remove_dir_all(&dir);
 	ctr.inc("cases.stability");
@@ -563,76 +1137,134 @@ fn stability(seed: u64, root: &Path, t: &mut Trace, ctr: &mut Counters, prop: &s
 // ------------------------------------------------------------------------------------------
 // 2: insert + dereference in one transaction, deferred behind the dereference of the shared tree
 
+/// Damage report for B against its logical tree: addresses of missing nodes that B shares with A
+/// (`Ok`), or any other kind of damage (`Err`).
+fn b_damage(db: &Db, kb: &[u8], b: &L, addrs_a: &HashMap<usize, u64>) -> Result<Vec<u64>, String> {
+	fn node(db: &Db, n: &L, a: u64, addrs_a: &HashMap<usize, u64>, missing: &mut Vec<u64>) -> Result<(), String> {
+		let shared = addrs_a.get(&ptr(n)).copied();
+		if let Some(sa) = shared {
+			if sa != a {
+				return Err(format!("B refers to a node of A at {:#x} instead of {:#x}", a, sa))
+			}
+		}
+		match db.get_node(TREE_COL, a).map_err(|e| format!("get_node({:#x}) error {:?}", a, e))? {
+			None if shared.is_some() => {
+				missing.push(a);
+				Ok(())
+			},
+			None => Err(format!("B's own node at {:#x} is missing", a)),
+			Some((data, ch)) => {
+				if data != n.data || ch.len() != n.children.len() {
+					return Err(format!("node at {:#x} was rewritten", a))
+				}
+				for (c, ca) in n.children.iter().zip(ch.iter()) {
+					node(db, c, *ca, addrs_a, missing)?;
+				}
+				Ok(())
+			},
+		}
+	}
+	let (data, ch) = match db.get_root(TREE_COL, kb).map_err(|e| format!("get_root error {:?}", e))? {
+		Some(x) => x,
+		None => return Err("tree B has no root".into()),
+	};
+	if data != b.data || ch.len() != b.children.len() {
+		return Err("root of B differs".into())
+	}
+	let mut missing = vec![];
+	for (c, ca) in b.children.iter().zip(ch.iter()) {
+		node(db, c, *ca, addrs_a, &mut missing)?;
+	}
+	Ok(missing)
+}
+
 fn f4_insert(seed: u64, root: &Path, t: &mut Trace, ctr: &mut Counters, prop: &str) -> bool {
 	let mut rng = Rng::new(seed);
 	t.begin_case(&format!("seed={} f4-insert", seed));
 	let dir = fresh_dir(root, &format!("c11-f4i-{}", seed));
+	let hook = hook_for_case(root, "");
 	let db = Db::open_or_create(&options(&dir, false)).expect("create");
-	let mut st = Stepper { db: &db, dirty: 0 };
+	let mut rec = Rec::new(&db, 8, counting(root, &hook), t);
 	let mut tag = 0;
 	let mut ok = true;
 	let a = gen_tree(&mut rng, 2, &mut tag);
 	let c = gen_tree(&mut rng, 1, &mut tag);
 	let (ka, kb, kc) = (key_of(1), key_of(2), key_of(3));
-	insert_tree(&db, &ka, &a, &HashMap::new()).unwrap();
-	insert_tree(&db, &kc, &c, &HashMap::new()).unwrap();
-	st.drain(3);
+	let none = HashMap::new();
+	let mut addrs_a = HashMap::new();
+	rec.commit(t, &[], &[], &[(1, &a, &none)], &[], &mut addrs_a).unwrap();
+	rec.commit(t, &[], &[], &[(3, &c, &none)], &[], &mut HashMap::new()).unwrap();
+	rec.drain(t, 3, &[]);
 	// another client reads C for a long time
 	let reader_c = db.get_tree(TREE_COL, &kc).unwrap().expect("tree C exists");
 	let guard_c = reader_c.read();
 	// the writer builds B from A under A's lock and prunes C in the same transaction
 	let b = gen_derived(&mut rng, &a, &mut tag);
-	let mut addrs = HashMap::new();
+	let mut addrs_b = HashMap::new();
+	let shared = shared_count(&b, &addrs_a);
 	{
+		rec.lock(t, 3, &[(3, &**guard_c)]);
 		let reader_a = db.get_tree(TREE_COL, &ka).unwrap().expect("tree A exists");
 		let guard_a = reader_a.read();
-		let mut n = 0;
-		walk(&**guard_a, &a, &mut addrs, &mut n).unwrap();
-		db.commit_changes(vec![
-			(TREE_COL, Operation::InsertTree(kb.clone(), to_new(&b, &addrs))),
-			(TREE_COL, Operation::DereferenceTree(kc.clone())),
-		])
-		.unwrap();
-	}
-	// later: A is pruned
-	db.commit_changes(vec![(TREE_COL, Operation::DereferenceTree(ka.clone()))]).unwrap();
-	let mut shared = 0;
-	{
-		let mut hs = HashSet::new();
-		distinct_nodes(&b, &mut hs);
-		for p in hs {
-			if addrs.contains_key(&p) {
-				shared += 1;
-			}
+		{
+			let held: &Held = &[(1, &**guard_a), (3, &**guard_c)];
+			rec.lock(t, 1, held);
+			let mut addrs = HashMap::new();
+			let mut n = 0;
+			walk(&**guard_a, &a, &mut addrs, &mut n).unwrap();
+			rec.commit(t, &[], &[3], &[(2, &b, &addrs)], held, &mut addrs_b).unwrap();
 		}
+		drop(guard_a);
+		drop(reader_a);
+		let held: &Held = &[(3, &**guard_c)];
+		rec.unlock(t, 1, held);
+		// later: A is pruned
+		rec.commit(t, &[], &[1], &[], held, &mut HashMap::new()).unwrap();
+		rec.drain(t, 4, held);
 	}
-	let res = std::panic::catch_unwind(std::panic::AssertUnwindSafe(|| {
-		let mut st2 = Stepper { db: &db, dirty: 0 };
-		st2.drain(4);
-	}));
 	drop(guard_c);
 	drop(reader_c);
-	let res2 = std::panic::catch_unwind(std::panic::AssertUnwindSafe(|| {
-		let mut st2 = Stepper { db: &db, dirty: 0 };
-		st2.drain(5);
-	}));
-	let _ = &mut st;
+	rec.unlock(t, 3, &[]);
+	rec.drain(t, 5, &[]);
 	let mut violated = vec![];
-	if res.is_err() || res2.is_err() {
-		violated.push("the pipeline panicked while planning the overtaken transaction".to_string());
+	let mut other = vec![];
+	if rec.panicked {
+		other.push("the pipeline panicked while planning the overtaken transaction".to_string());
 	} else {
-		match verify_tree(&db, &kb, &b, &mut HashMap::new()) {
-			Ok(true) => {},
-			Ok(false) => violated.push("tree B (committed before the dereference of A) has no root".to_string()),
-			Err(m) => violated.push(format!("tree B (committed before the dereference of A) is damaged: {}", m)),
+		match b_damage(&db, &kb, &b, &addrs_a) {
+			Ok(missing) if missing.is_empty() => {},
+			Ok(missing) => violated.push(format!(
+				"tree B (committed before the dereference of A) lost {} node(s) it shares with A, first at {:#x}; B's root and own nodes are intact",
+				missing.len(),
+				missing[0]
+			)),
+			Err(m) => other.push(format!("tree B is damaged in another way: {}", m)),
+		}
+		for (k, name) in [(&ka, "A"), (&kc, "C")] {
+			if !matches!(db.get_root(TREE_COL, k), Ok(None)) {
+				other.push(format!("tree {} still has a root after its dereference was processed", name));
+			}
 		}
 		let entries = db.get_num_column_value_entries(TREE_COL).unwrap();
 		let want = expected_entries(&[&b]);
-		if entries != want {
-			violated.push(format!("{} value entries, commit-return order gives {}", entries, want));
+		if entries > want {
+			other.push(format!("{} value entries, more than the {} of commit-return order", entries, want));
+		} else if entries < want {
+			if violated.is_empty() {
+				other.push(format!("{} value entries although B is intact, commit-return order gives {}", entries, want));
+			} else {
+				violated.push(format!("{} value entries, commit-return order gives {}", entries, want));
+			}
 		}
 	}
-	if violated.is_empty() {
+	rec.verdict(t, violated.is_empty() && other.is_empty(), true);
+	if !rec.stale.is_empty() {
+		other.push("ordinary reads changed although no ordinary key was written".into());
+	}
+	if !other.is_empty() {
+		t.oracle_fail(prop, &format!("f4-insert: {}", other.join("; ")));
+		ok = false;
+	} else if violated.is_empty() {
 		ctr.inc("f4_insert.order_kept");
 	} else if shared == 0 {
 		t.oracle_fail(prop, &format!("f4-insert without shared nodes: {}", violated.join("; ")));
@@ -641,7 +1273,10 @@ fn f4_insert(seed: u64, root: &Path, t: &mut Trace, ctr: &mut Counters, prop: &s
 		ctr.inc("f4_insert.order_violated");
 		t.known(prop, "F4", &format!("deferred commit {{InsertTree B, DereferenceTree C}} overtaken by DereferenceTree A: {}", violated.join("; ")));
 	}
-	if res.is_ok() && res2.is_ok() {
+	Hook11::uninstall();
+	let panicked = rec.panicked;
+	drop(rec);
+	if !panicked {
 		drop(db);
 	} else {
 		std::mem::forget(db);
@@ -663,7 +1298,36 @@ fn threaded(seed: u64, thorough: bool, root: &Path, t: &mut Trace, ctr: &mut Cou
 	let hold_us = *rng.pick(&[0u64, 50, 400, 2000]);
 	t.begin_case(&format!("seed={} threaded readers={} keep={} ms={} hold_us={}", seed, nreaders, keep, millis, hold_us));
 	let dir = fresh_dir(root, &format!("c11-th-{}", seed));
+	let have_defer_hook = defer_hook_present(root);
 	let db = Arc::new(Db::open_or_create(&options(&dir, true)).expect("create"));
+	// Publication window of the record that removes the root of a tree some reader holds locked,
+	// recorded on the log worker's thread: a reader announces (slot = reader number) the tree it
+	// has just locked; right after every `end_record` the announced trees whose root has vanished
+	// were removed by THIS record: (its deferral check, its planning, its publication, the
+	// previous publication).  At most one `get_root` per reader and record.
+	let hook = Hook11::new("");
+	let windows: Arc<Mutex<Vec<Option<(u64, Option<Window>)>>>> = Arc::new(Mutex::new(vec![None; nreaders]));
+	{
+		let (wdb, windows) = (Arc::downgrade(&db), windows.clone());
+		*hook.on_published.lock().unwrap() = Some(Box::new(move |w: Window| {
+			let db = match wdb.upgrade() {
+				Some(db) => db,
+				None => return,
+			};
+			let mut ws = windows.lock().unwrap_or_else(|e| e.into_inner());
+			for slot in ws.iter_mut() {
+				if let Some((i, win)) = slot {
+					let gone = std::panic::catch_unwind(std::panic::AssertUnwindSafe(|| {
+						matches!(db.get_root(TREE_COL, &key_of(*i)), Ok(None))
+					}));
+					if win.is_none() && gone.unwrap_or(false) {
+						*win = Some(w);
+					}
+				}
+			}
+		}));
+	}
+	hook.install();
 	// shared logical state: tree index -> (key, tree); `pruned` = dereference committed
 	struct Shared {
 		trees: BTreeMap<u64, (Vec<u8>, L)>,
@@ -788,10 +1452,43 @@ fn threaded(seed: u64, thorough: bool, root: &Path, t: &mut Trace, ctr: &mut Cou
 	let mut readers = vec![];
 	for r in 0..nreaders {
 		let (db, shared, stop) = (db.clone(), shared.clone(), stop.clone());
+		let (hook, windows) = (hook.clone(), windows.clone());
 		let mut rr = Rng::new(seed ^ (0x77 + r as u64));
-		readers.push(std::thread::spawn(move || -> (u64, u64, u64, Vec<String>) {
+		readers.push(std::thread::spawn(move || -> (u64, u64, u64, Vec<String>, Vec<String>) {
 			let (mut walks, mut nodes, mut gone) = (0u64, 0u64, 0u64);
 			let mut bad = vec![];
+			let mut f13 = vec![];
+			// Damage seen under a held lock on tree `i`, the lock granted at stamp `ta`: it is the
+			// F13 sequence iff the record that removed the tree's root passed its deferral check
+			// (yield point of fixes/f-c11/hook-c11.diff) before `ta` and was published after `ta`.
+			// A lock granted BEFORE the deferral check must have postponed the commit: damage under
+			// such a lock is a different defect.  Without that yield point only "planned before
+			// `ta`" can be shown.
+			let classify = |i: u64, ta: u64, what: String, f13: &mut Vec<String>, bad: &mut Vec<String>| {
+				// the hook of the removing record may still be running: give it a moment
+				let mut w = None;
+				for _ in 0..200 {
+					w = windows.lock().unwrap_or_else(|e| e.into_inner())[r].and_then(|(_, win)| win);
+					if w.is_some() {
+						break
+					}
+					std::thread::sleep(Duration::from_millis(1));
+				}
+				match w {
+					Some((_tc, tp, t2, _)) if tp < ta && ta < t2 => f13.push(format!(
+						"F13-SEQUENCE planned@{} < locked@{} < published@{}: tree write lock released before the dereference is published: {}", tp, ta, t2, what)),
+					Some((tc, tp, t2, _)) if have_defer_hook && tc < ta && ta < t2 => f13.push(format!(
+						"F13-SEQUENCE checked@{} < locked@{} < planned@{} < published@{} (a lock requested during the walk is granted when the walk's write lock is released): tree write lock released before the dereference is published: {}", tc, ta, tp, t2, what)),
+					// weaker evidence when the crate lacks the deferral yield points: the lock was
+					// granted after the PREVIOUS record was published, i.e. possibly before the
+					// deferral check of this one
+					Some((_, tp, t2, pp)) if !have_defer_hook && pp < ta && ta < t2 => f13.push(format!(
+						"F13-SEQUENCE (weak, yield point process_commits.before_deferral_check absent) previous-publication@{} < locked@{} < planned@{} < published@{}: tree write lock released before the dereference is published: {}", pp, ta, tp, t2, what)),
+					Some((tc, tp, t2, _)) => bad.push(format!(
+						"LOCK-STABILITY (not the F13 sequence: checked@{} planned@{} published@{}, lock granted @{}): {}", tc, tp, t2, ta, what)),
+					None => bad.push(format!("LOCK-STABILITY (no publication removed the root of tree {}; lock granted @{}): {}", i, ta, what)),
+				}
+			};
 			while !stop.load(Ordering::Relaxed) && bad.len() < 3 {
 				let pick = {
 					let s = shared.lock().unwrap();
@@ -819,9 +1516,15 @@ fn threaded(seed: u64, thorough: bool, root: &Path, t: &mut Trace, ctr: &mut Cou
 					},
 				};
 				let guard = reader.read();
+				let ta = hook.tick();
+				windows.lock().unwrap_or_else(|e| e.into_inner())[r] = Some((i, None));
 				let mut addrs = HashMap::new();
 				let mut n = 0;
-				match walk(&**guard, &tr, &mut addrs, &mut n) {
+				// reading a tree that is being removed under the lock may hit reused slots: a panic
+				// inside the crate is damage like any other
+				let first = std::panic::catch_unwind(std::panic::AssertUnwindSafe(|| walk(&**guard, &tr, &mut addrs, &mut n)))
+					.unwrap_or_else(|_| Err("the crate panicked while the tree was read".to_string()));
+				match first {
 					Ok(true) => {
 						walks += 1;
 						nodes += n;
@@ -831,21 +1534,25 @@ fn threaded(seed: u64, thorough: bool, root: &Path, t: &mut Trace, ctr: &mut Cou
 						// still the same at the end of the critical section
 						let mut addrs2 = HashMap::new();
 						let mut n2 = 0;
-						match walk(&**guard, &tr, &mut addrs2, &mut n2) {
+						match std::panic::catch_unwind(std::panic::AssertUnwindSafe(|| walk(&**guard, &tr, &mut addrs2, &mut n2)))
+								.unwrap_or_else(|_| Err("the crate panicked while the tree was read".to_string()))
+							{
 							Ok(true) if addrs2 == addrs => {},
-							other => bad.push(format!("tree {} changed while its read lock was held: {:?}", i, other)),
+							other => classify(i, ta, format!("tree {} differs at the end of the critical section from the walk at its start: {:?}", i, other), &mut f13, &mut bad),
 						}
 					},
 					Ok(false) => {
 						if shared.lock().unwrap().pruned_upto <= i {
-							bad.push(format!("tree {} has no root under lock although its dereference was never committed", i));
+							bad.push(format!("LOCK-STABILITY: tree {} has no root under its read lock; its dereference was never committed", i));
 						}
 						gone += 1;
 					},
-					Err(m) => bad.push(format!("tree {} read under lock is damaged: {}", i, m)),
+					Err(m) => classify(i, ta, format!("tree {} is damaged during the first walk under its read lock: {}", i, m), &mut f13, &mut bad),
 				}
+				windows.lock().unwrap_or_else(|e| e.into_inner())[r] = None;
+				drop(guard);
 			}
-			(walks, nodes, gone, bad)
+			(walks, nodes, gone, bad, f13)
 		}));
 	}
 	std::thread::sleep(Duration::from_millis(millis));
@@ -867,7 +1574,7 @@ fn threaded(seed: u64, thorough: bool, root: &Path, t: &mut Trace, ctr: &mut Cou
 		t.flush();
 		std::process::exit(3);
 	}
-	let n_inserted = match writer.join().unwrap() {
+	let n_inserted = match writer.join().unwrap_or_else(|_| Err("writer thread panicked".to_string())) {
 		Ok(n) => n,
 		Err(m) => {
 			t.oracle_fail(prop, &m);
@@ -875,7 +1582,7 @@ fn threaded(seed: u64, thorough: bool, root: &Path, t: &mut Trace, ctr: &mut Cou
 			inserted.load(Ordering::SeqCst)
 		},
 	};
-	let n_removed = match pruner.join().unwrap() {
+	let n_removed = match pruner.join().unwrap_or_else(|_| Err("pruner thread panicked".to_string())) {
 		Ok(n) => n,
 		Err(m) => {
 			t.oracle_fail(prop, &m);
@@ -884,7 +1591,19 @@ fn threaded(seed: u64, thorough: bool, root: &Path, t: &mut Trace, ctr: &mut Cou
 		},
 	};
 	for h in readers {
-		let (walks, nodes, gone, bad) = h.join().unwrap();
+		let (walks, nodes, gone, bad, f13) = match h.join() {
+			Ok(x) => x,
+			Err(_) => {
+				t.oracle_fail(prop, "threaded: a reader thread panicked outside the tree walks");
+				ok = false;
+				continue
+			},
+		};
+		ctr.add("threaded.f13_sequences_shown", f13.len() as u64);
+		// every shown sequence is counted, the first few of each reader are reported
+		for m in f13.iter().take(3) {
+			t.known(prop, "F13", m);
+		}
 		ctr.add("threaded.locked_walks", walks);
 		ctr.add("threaded.nodes_read_under_lock", nodes);
 		ctr.add("threaded.reads_of_pruned_trees", gone);
@@ -923,9 +1642,18 @@ fn threaded(seed: u64, thorough: bool, root: &Path, t: &mut Trace, ctr: &mut Cou
 		}
 	}
 	let removed_val = kv_get(&db, b"removed").map(|v| u64::from_le_bytes(v[0..8].try_into().unwrap())).unwrap_or(0);
+	let n_deferred = hook.deferred.load(Ordering::SeqCst);
+	ctr.add("threaded.deferrals", n_deferred);
 	if removed_val != n_removed {
-		ctr.inc("threaded.order_violated");
-		t.known(prop, "F4", &format!("deferred commit overtaken and re-published: counter written by the pruning transactions ends at {} although the last committed transaction wrote {}", removed_val, n_removed));
+		// F4 is shown iff the final value is the one an EARLIER pruning transaction wrote and (when
+		// the yield point exists) at least one commit was re-queued
+		if removed_val >= 1 && removed_val < n_removed && (n_deferred > 0 || !have_defer_hook) {
+			ctr.inc("threaded.order_violated");
+			t.known(prop, "F4", &format!("deferred commit overtaken and re-published: counter written by the pruning transactions ends at {} (value of an earlier, re-queued transaction; {} deferrals) although the last committed transaction wrote {}", removed_val, n_deferred, n_removed));
+		} else {
+			t.oracle_fail(prop, &format!("threaded: counter ends at {} although the last committed transaction wrote {}; NOT the F4 pattern ({} deferrals)", removed_val, n_removed, n_deferred));
+			ok = false;
+		}
 	} else {
 		ctr.inc("threaded.order_kept");
 	}
@@ -933,7 +1661,19 @@ fn threaded(seed: u64, thorough: bool, root: &Path, t: &mut Trace, ctr: &mut Cou
 	ctr.add("threaded.trees_inserted", n_inserted);
 	ctr.add("threaded.trees_removed", n_removed);
 	drop(shared);
-	let db = Arc::try_unwrap(db).ok().expect("all threads joined");
+	Hook11::uninstall();
+	*hook.on_published.lock().unwrap() = None;
+	let mut db = db;
+	let db = loop {
+		// a hook invocation in flight may hold a temporary strong reference
+		match Arc::try_unwrap(db) {
+			Ok(d) => break d,
+			Err(a) => {
+				db = a;
+				std::thread::sleep(Duration::from_millis(1));
+			},
+		}
+	};
 	let dropper = std::thread::spawn(move || drop(db));
 	if !wait(&dropper, Instant::now() + Duration::from_secs(30)) {
 		t.comment("threaded: drop(Db) did not return within 30 s (pre-finding F7)");
@@ -949,49 +1689,53 @@ fn threaded(seed: u64, thorough: bool, root: &Path, t: &mut Trace, ctr: &mut Cou
 // 4: a reader takes the lock after the dereference walk was planned, before it is published
 
 fn publish_gap(seed: u64, root: &Path, t: &mut Trace, ctr: &mut Counters, prop: &str) -> bool {
-	use crate::c05::{Gate, PARK_ME};
 	let mut rng = Rng::new(seed);
 	let depth = rng.range(2, 3) as u32;
 	let reuse = rng.chance(2, 3);
 	t.begin_case(&format!("seed={} publish-gap depth={} reuse={}", seed, depth, reuse));
 	let dir = fresh_dir(root, &format!("c11-pg-{}", seed));
+	let hook = hook_for_case(root, "process_commits.before_end_record").expect("hook with a park point");
 	let db = Db::open_or_create(&options(&dir, false)).expect("create");
+	let mut rec = Rec::new(&db, 8, counting(root, &Some(hook.clone())), t);
 	let mut tag = 0;
 	let mut ok = true;
 	let a = gen_tree(&mut rng, depth, &mut tag);
 	let ka = key_of(1);
-	insert_tree(&db, &ka, &a, &HashMap::new()).unwrap();
-	{
-		let mut st = Stepper { db: &db, dirty: 0 };
-		st.drain(2);
-	}
-	db.commit_changes(vec![(TREE_COL, Operation::DereferenceTree(ka.clone()))]).unwrap();
-	let gate = Gate::new("process_commits.before_end_record");
-	gate.install();
-	gate.arm();
+	let none = HashMap::new();
+	let mut addrs_a = HashMap::new();
+	rec.commit(t, &[], &[], &[(1, &a, &none)], &[], &mut addrs_a).unwrap();
+	rec.drain(t, 2, &[]);
+	rec.commit(t, &[], &[1], &[], &[], &mut HashMap::new()).unwrap();
+	hook.arm();
 	let mut violated = vec![];
+	let mut other = vec![];
 	let mut reached = false;
 	let mut excluded = false;
+	// stamps: the dereferencing record planned / the reader's lock granted / the record published
+	let (mut t_plan, mut t_lock, mut t_pub) = (0u64, 0u64, 0u64);
 	std::thread::scope(|s| {
 		let dbr = &db;
 		let worker = s.spawn(move || {
-			PARK_ME.with(|p| p.set(true));
+			PARK_ME11.with(|p| p.set(true));
 			let r = dbr.process_commits();
-			PARK_ME.with(|p| p.set(false));
+			PARK_ME11.with(|p| p.set(false));
 			r
 		});
-		if !gate.wait_parked(5000) {
-			gate.release();
+		if !hook.wait_parked(5000) {
+			hook.release();
 			worker.join().unwrap().unwrap();
 			return
 		}
 		reached = true;
+		t_plan = hook.last_plan.load(Ordering::SeqCst);
 		// the walk is planned, its tree lock released, nothing is published: the tree looks intact
+		// (the slots are already on the free list: the entry count has dropped)
+		rec.emit(t, "process", "ok", &[]);
 		let reader = match db.get_tree(TREE_COL, &ka) {
 			Ok(Some(r)) => r,
-			other => {
-				violated.push(format!("get_tree before publication returned {:?}", other.map(|o| o.is_some())));
-				gate.release();
+			other_r => {
+				other.push(format!("get_tree before publication returned {:?}", other_r.map(|o| o.is_some())));
+				hook.release();
 				worker.join().unwrap().unwrap();
 				return
 			},
@@ -1000,70 +1744,88 @@ fn publish_gap(seed: u64, root: &Path, t: &mut Trace, ctr: &mut Counters, prop: 
 			Some(g) => g,
 			None => {
 				// the planner still holds the tree's write lock: the reader is kept out until the
-				// removal is visible
+				// removal is visible (behaviour of fixes/fix-c11-defer-order.diff)
 				excluded = true;
-				gate.release();
+				hook.release();
 				worker.join().unwrap().unwrap();
 				let g = reader.read();
 				match g.get_root() {
 					Ok(None) => {},
-					other => violated.push(format!("after waiting for the planner the root is {:?}", other.map(|o| o.is_some()))),
+					other_r => other.push(format!("after waiting for the planner the root is {:?}", other_r.map(|o| o.is_some()))),
 				}
 				return
 			},
 		};
+		t_lock = hook.tick();
+		let held: &Held = &[(1, &**guard)];
+		rec.lock(t, 1, held);
 		let mut addrs = HashMap::new();
 		let mut n = 0;
 		match walk(&**guard, &a, &mut addrs, &mut n) {
-			Ok(true) => {},
-			other => violated.push(format!("tree not intact when the lock was acquired: {:?}", other)),
+			Ok(true) if addrs == addrs_a => {},
+			other_r => other.push(format!("tree not intact when the lock was acquired: {:?}", other_r)),
 		}
-		gate.release();
+		hook.release();
 		worker.join().unwrap().unwrap();
+		t_pub = hook.last_pub.load(Ordering::SeqCst);
 		// the removal is now published while the read lock is STILL held
+		rec.emit(t, "publish", "ok", held);
 		let mut addrs2 = HashMap::new();
 		let mut n2 = 0;
 		match walk(&**guard, &a, &mut addrs2, &mut n2) {
 			Ok(true) if addrs2 == addrs => {},
-			Ok(true) => violated.push("node addresses changed under the held lock".into()),
-			Ok(false) => violated.push("root disappeared under the held lock".into()),
+			Ok(true) => violated.push("node addresses changed under the held lock".to_string()),
+			Ok(false) => violated.push("root disappeared under the held lock".to_string()),
 			Err(m) => violated.push(format!("tree changed under the held lock: {}", m)),
 		}
+		rec.settle(t, held);
 		if reuse {
 			// freed slots are handed out again while the reader still holds its lock
 			let d = gen_tree(&mut rng, depth, &mut tag);
-			insert_tree(&db, &key_of(9), &d, &HashMap::new()).unwrap();
-			let mut st = Stepper { db: &db, dirty: 0 };
-			st.drain(2);
+			rec.commit(t, &[], &[], &[(9, &d, &none)], held, &mut HashMap::new()).unwrap();
+			rec.drain(t, 2, held);
 			let mut addrs3 = HashMap::new();
 			let mut n3 = 0;
 			match walk(&**guard, &a, &mut addrs3, &mut n3) {
 				Ok(true) if addrs3 == addrs => {},
-				Ok(true) => violated.push("node addresses changed under the held lock (after reuse)".into()),
+				Ok(true) => violated.push("node addresses changed under the held lock (after reuse)".to_string()),
 				Ok(false) => {},
 				Err(m) => violated.push(format!("after a later InsertTree: {}", m)),
 			}
 		}
 		drop(guard);
+		rec.unlock(t, 1, &[]);
 	});
-	parity_db::verif::set_yield_hook(None);
-	if !reached {
-		t.comment("publish-gap: yield point not reached");
-		ctr.inc("publish_gap.not_reached");
-	} else if violated.is_empty() {
-		ctr.inc(if excluded { "publish_gap.reader_excluded_until_published" } else { "publish_gap.stable" });
-	} else {
-		ctr.inc("publish_gap.violated");
-		t.known(prop, "F13", &format!("tree write lock released before the dereference is published: reader locked tree A between the walk and end_record: {}", violated.join("; ")));
-	}
-	{
-		let mut st = Stepper { db: &db, dirty: 0 };
-		st.drain(3);
-	}
+	rec.drain(t, 3, &[]);
+	let mut forest_ok = true;
 	if !matches!(verify_tree(&db, &ka, &a, &mut HashMap::new()), Ok(false)) {
 		t.oracle_fail(prop, "publish-gap: tree A still present at the end");
 		ok = false;
+		forest_ok = false;
 	}
+	if reached {
+		rec.verdict(t, forest_ok, violated.is_empty() && other.is_empty());
+	}
+	Hook11::uninstall();
+	// F13 is SHOWN iff the lock was granted after the dereferencing record was planned and
+	// before it was published
+	let shown = t_plan != 0 && t_plan < t_lock && t_lock < t_pub;
+	if !reached {
+		t.comment("publish-gap: yield point not reached");
+		ctr.inc("publish_gap.not_reached");
+	} else if !other.is_empty() || !rec.stale.is_empty() {
+		t.oracle_fail(prop, &format!("publish-gap: {} {}", other.join("; "), if rec.stale.is_empty() { "" } else { "ordinary reads changed" }));
+		ok = false;
+	} else if violated.is_empty() {
+		ctr.inc(if excluded { "publish_gap.reader_excluded_until_published" } else { "publish_gap.stable" });
+	} else if shown {
+		ctr.inc("publish_gap.violated");
+		t.known(prop, "F13", &format!("F13-SEQUENCE planned@{} < locked@{} < published@{}: tree write lock released before the dereference is published: reader locked tree A between the walk and end_record: {}", t_plan, t_lock, t_pub, violated.join("; ")));
+	} else {
+		t.oracle_fail(prop, &format!("publish-gap: LOCK-STABILITY (not the F13 sequence; planned@{} locked@{} published@{}): {}", t_plan, t_lock, t_pub, violated.join("; ")));
+		ok = false;
+	}
+	drop(rec);
 	drop(db);
 	let _ = std::fs::remove_dir_all(&dir);
 	ctr.inc("cases.publish_gap");
